@@ -27,7 +27,9 @@ RULE = (
 )
 ASSUMPTIONS = base.ASSUMPTIONS + ["the differential 'as if the failed edit never happened' compares with a fresh parse of the text the object produced before the call"]
 
-NON_EDITABLE = ["[ 1 2 ]", "{ a = 1; } { b = 2; }", "", "1", "x: x", "{ a = ; }", "\"str\"", "f [ 1 ]", "# only a comment\n", "let a = 1; in a"]
+NON_EDITABLE = ["[ 1 2 ]", "{ a = 1; } { b = 2; }", "", "1", "x: x", "{ a = ; }", "\"str\"", "f [ 1 ]", "# only a comment\n", "let a = 1; in a",
+                # a name body that does not lead to a set under lexical scoping (outer layer referring to an inner-only name, cycle, unbound name)
+                "let\n  s = t;\nin\nlet\n  t = { a = 1; };\nin\ns\n", "let a = b; b = a; in a", "let s = t; in s", "let\n  s = t;\nin\nlet\n  t = { a = 1; };\nin\nf s\n"]
 BAD_PATHS = ["a\n", "meta.version\n", "meta\n.version", "@a\n", " a", "a ", "\ta", "", "a..b", ".a", "a.", 'a."b', 'a."b\\', "@", "@@", "@.", 'foo"bar"', "a b", "a.b-c", "1a", "a.$", "a.\n", "@a..b", '"x"y']
 BAD_VALUES = ["", " ", "1 2 3;", "{ a = ; }", "[ 1", "# c", "a b; c", "}", "let in", "'' open", "1;"]
 
